@@ -345,6 +345,19 @@ Proof.
     destruct (admins s d) as [a|] eqn:Ea; auto; rewrite (Hk a eq_refl); auto.
 Qed.
 
+(** accepted admin-only messages were signed by the admin on record; a hand-over installs the successor *)
+Lemma step_authority blocked s o s' :
+  step blocked s o = Some s' ->
+  match o with
+  | Mint sender d _ _ _ | Burn sender d _ _ _ | SetMeta sender d _ => admins s d = Some sender
+  | ChangeAdmin sender d new _ => admins s d = Some sender /\ admins s' d = Some new
+  | _ => True
+  end.
+Proof.
+  intro H. destruct o; simpl in *; auto; brk H; conds; subst; auto.
+  inversion H; subst; simpl. rewrite upd_same. auto.
+Qed.
+
 (* ------------------------------------------------------------------ the statement to the letter is refuted *)
 
 Definition empty_state : st :=
@@ -398,6 +411,7 @@ Proof. intro H. apply in_map_iff in H as (x & Hx & Hin). inversion Hx; subst. au
 (** the five per-message clauses of [step_P] (everything except the sum over tracked accounts) *)
 Definition step_core (strict : bool) (blocked : list string) (prev : snap) (o : op) (ok : bool) (cur : snap) : Prop :=
   (ok = false -> cur = prev) /\
+  (ok = true -> authority_ok prev cur o) /\
   (forall d v', In (d, v') (sn_supply cur) ->
      exists v, lookup d (sn_supply prev) = Some v /\ (v' <> v -> ok = true /\ supply_change_ok strict prev o d v v')) /\
   (forall d a', In (d, a') (sn_admin cur) ->
@@ -415,17 +429,22 @@ Lemma step_P_core strict blocked prev o ok cur : step_P strict blocked prev o ok
 Proof. unfold step_P, step_core. tauto. Qed.
 
 Lemma model_step_core blocked ds bs s o :
-  inv s -> (forall sender sub, o = Create sender sub -> In (tf_denom sender sub) ds) ->
+  inv s -> In (op_denom o) ds ->
   step_core false blocked (snap_keys ds bs s) o (snd (deliver blocked s o)) (snap_keys ds bs (fst (deliver blocked s o))).
 Proof.
   intros Hi Htr. unfold deliver. destruct (step blocked s o) as [s'|] eqn:E; simpl.
-  2:{ unfold step_core. split; [auto|]. split; [|split; [|split; [|]]].
+  2:{ unfold step_core. split; [auto|]. split; [discriminate|]. split; [|split; [|split; [|]]].
       - intros d v' Hin. apply in_map_key in Hin as [Hin ->]. exists (supply s d). split; [apply (lookup_map (supply s)); auto | congruence].
       - intros d a' Hin. apply in_map_key in Hin as [Hin ->]. exists (admins s d). split; [apply (lookup_map (admins s)); auto | congruence].
       - intros; discriminate.
       - intros acct d b' Hin. apply in_map_iff in Hin as ([x y] & Hx & Hin). simpl in Hx. inversion Hx; subst.
         exists (bal s acct d). split; [apply (lookup2_map (bal s)); auto | congruence]. }
-  unfold step_core. split; [discriminate|]. split; [|split; [|split]].
+  unfold step_core. split; [discriminate|]. split; [|split; [|split; [|split]]].
+  - intros _. pose proof (step_authority _ _ _ _ E) as Ha.
+    destruct o; simpl in *; auto;
+      rewrite ?(lookup_map (admins s)), ?(lookup_map (admins s')) by auto;
+      try (rewrite Ha; reflexivity).
+    destruct Ha as [Ha1 Ha2]. rewrite Ha1, Ha2. auto.
   - intros d v' Hin. apply in_map_key in Hin as [Hin ->]. exists (supply s d).
     split; [apply (lookup_map (supply s)); auto|]. intro Hne. split; auto.
     destruct (supply_step _ _ _ _ _ E Hne) as [[(sd & dv & amt & to & -> & Ha & Hs & Hp & Hv)|(sd & dv & amt & fr & -> & Ha & Hs & Hp & Hv)]|(sd & dv & amt & -> & Hs & Hp & _)];
@@ -433,7 +452,7 @@ Proof.
   - intros d a' Hin. apply in_map_key in Hin as [Hin ->]. exists (admins s d).
     split; [apply (lookup_map (admins s)); auto|]. intro Hne. split; auto.
     destruct (admin_step _ _ _ _ _ Hi E Hne) as [(sd & new & nv & -> & Ha & Hn)|(sd & sub & -> & Hd & Ha & Hn & Hp)]; simpl; auto.
-  - intros sender sub Ho _. subst o. specialize (Htr sender sub eq_refl).
+  - intros sender sub Ho _. subst o. simpl in Htr.
     destruct (create_step _ _ _ _ _ Hi E) as (Ha & Ha' & Hp & _). simpl.
     rewrite (lookup_map (admins s)), (lookup_map (admins s')) by auto. rewrite Ha, Ha'. auto.
   - intros acct d b' Hin. apply in_map_iff in Hin as ([x y] & Hx & Hin). simpl in Hx. inversion Hx; subst.
